@@ -12,8 +12,8 @@
    the build breaks.
 
    Fact obligations (closed by computation on Extracted.Facts):
-     C16_current_guard_facts   the eleven decode_* facts are all 1
-     C16_current_guards        the nine boolean guards of [current] are on
+     C16_current_guard_facts   the twelve decode_* facts are all 1
+     C16_current_guards        the ten boolean guards of [current] are on
      C16_current_wildcard      WildcardMatch: MustCompile kept (g_wc_must = true) with QuoteMeta (g_wc_quote = true)
    Statements about the current tree (no premise on the facts):
      C16_current_all_guards, C16_current_no_panic_compile, C16_current_no_panic_read,
@@ -32,14 +32,15 @@ Local Open Scope string_scope.
 
 (* ---- fact obligations: every guard is present in the current tree ---- *)
 
-Theorem C16_current_guard_facts : guard_facts = [1; 1; 1; 1; 1; 1; 1; 1; 1; 1; 1].
+Theorem C16_current_guard_facts : guard_facts = [1; 1; 1; 1; 1; 1; 1; 1; 1; 1; 1; 1].
 Proof. reflexivity. Qed.
 Print Assumptions C16_current_guard_facts.
 
 Theorem C16_current_guards :
   g_var_len current = true /\ g_glob_nil current = true /\ g_platform_nil current = true /\
   g_requires_nil current = true /\ g_snippet_clamp current = true /\ g_git_len current = true /\
-  g_traverse_struct current = true /\ g_omap_nil current = true /\ g_deepcopy_nil current = true.
+  g_traverse_struct current = true /\ g_omap_nil current = true /\ g_deepcopy_nil current = true /\
+  g_expand_literal_len current = true.
 Proof. repeat split; reflexivity. Qed.
 Print Assumptions C16_current_guards.
 
@@ -90,6 +91,11 @@ Theorem C16_current_sites_closed :
   forall o s, (forall n, o_wc_quoted o n = true) -> ~ site_open current o s.
 Proof. exact (fun o s H => all_guards_closed current o s (current_all_guards o H)). Qed.
 Print Assumptions C16_current_sites_closed.
+
+(* execext.ExpandLiteral of the current tree: total, whatever the shell parser says about the string *)
+Theorem C16_current_expand_literal : forall o str s, expand_literal current o str <> Panic s.
+Proof. exact (fun o str s => expand_literal_total current o str eq_refl s). Qed.
+Print Assumptions C16_current_expand_literal.
 
 (* without the regexp law: the only site that can be open in the current tree *)
 Theorem C16_current_open_site_is_wildcard :
